@@ -806,12 +806,18 @@ def stage_center(ctx):
 # source tie: Accumulator.push as written now, translated and proved equal to the model
 
 SRC_ITEMS = [dict(file="holopy/core/io/io.py", qualname="Accumulator.push", name="push_src", rettype="R * R * R",
-                  params=[("x", "R")], state=["_n", "_running_mean", "_running_var"])]
+                  params=[("x", "R")], state=["_n", "_running_mean", "_running_var"]),
+             dict(file="holopy/core/process/img_proc.py", qualname="(header)", name="asum",
+                  fn=lambda repo: __import__("harness.lib.pyarr", fromlist=["x"]).HEADER),
+             dict(file="holopy/core/process/img_proc.py", qualname="normalize", name="normalize_src",
+                  fn=lambda repo: __import__("harness.lib.pyarr", fromlist=["x"]).translate_elementwise_return(
+                      repo, "holopy/core/process/img_proc.py", "normalize", "normalize_src", [("image", "R")], ["image"],
+                      passthrough={"copy_metadata": 1}, size_attrs={"image.size"}))]
 
 
 def stage_srctie(ctx):
     from harness.lib import srctie
-    ok = srctie.run(ctx, "C18", "From Coq Require Import Permutation.\nFrom HV Require Import C18.Model C18.Lemmas C18.Props.\n", SRC_ITEMS)
+    ok = srctie.run(ctx, "C18", "From Coq Require Import Permutation Lia Psatz.\nFrom HV Require Import C18.Model C18.Lemmas C18.Props.\n", SRC_ITEMS)
     ctx.count("srctie:%s" % ("ok" if ok else "broken"))
 
 
@@ -867,7 +873,8 @@ def run(ctx):
     ctx.trusted.append("source translator harness/lib/pysrc.py (python floats / ints read as reals; see its docstring) for the source tie")
     ctx.clauses_proved.append("source tie: Accumulator.push of core/io/io.py, translated from the current source text on every run as a state "
                               "transformer, is proved equal to the model's push; Welford = batch mean / variance and order independence restated "
-                              "for the translated source")
+                              "for the translated source; img_proc.normalize (numpy vector code read elementwise by pyarr) likewise proved "
+                              "equal to the model's normalize for every pixel list, mean 1 and scale invariance restated for the source")
     timed("prove", ctx.prove)
     timed("source-tie", stage_srctie, ctx)
     t = time.time()
